@@ -5,6 +5,7 @@
 package mcp
 
 import (
+	"bytes"
 	"context"
 	"encoding/json"
 	"errors"
@@ -14,6 +15,7 @@ import (
 	"net"
 	"os"
 	"reflect"
+	"strconv"
 	"sync"
 	"time"
 
@@ -251,6 +253,19 @@ func (c *canceller) Preempt(ctx context.Context, req *jsonrpc.Request) (result a
 		id, err := jsonrpc2.MakeID(params.RequestID)
 		if err != nil {
 			return nil, err
+		}
+		if f, ok := params.RequestID.(float64); ok && (f >= 1<<53 || f <= -(1<<53)) {
+			// As for request IDs (see jsonrpc2.DecodeMessage): float64 cannot
+			// represent every integer of this magnitude, so the ID above may name
+			// a neighbouring request. Recover the exact value from the wire form.
+			var exact struct {
+				RequestID json.RawMessage `json:"requestId"`
+			}
+			if err := internaljson.Unmarshal(req.Params, &exact); err == nil {
+				if n, err := strconv.ParseInt(string(bytes.TrimSpace(exact.RequestID)), 10, 64); err == nil {
+					id = jsonrpc2.Int64ID(n)
+				}
+			}
 		}
 		go c.conn.Cancel(id)
 	}
